@@ -254,6 +254,11 @@ def tasks(ctx):
     return filter_tasks(ts)
 
 
+# components whose representation invariants the lemmas above assume in every reachable state (engine/closure.py adds
+# the preservation obligations of all their functions)
+tasks.invariant_packages = ('ppu', 'oam')
+
+
 def run(tier, seed):
     return run_property("C15", tasks, "proof", tier, seed, BASE_ASSUME + ["spec/render_spec.py is the oracle (documentation-derived)",
                         "(*image.RGBA).SetRGBA sets exactly the addressed pixel (ghost pixel event)"], TRUSTED)
